@@ -447,7 +447,9 @@ fn labels(g: &BTreeSet<Tr>) -> Vec<String> {
 }
 
 /// exact graph isomorphism: a bijection of blank labels mapping `a` onto `b` (backtracking over
-/// all injections; graphs here have at most a handful of labels)
+/// injections; a triple is checked as soon as all its labels are assigned, so a wrong partial
+/// assignment is abandoned at once and graphs with a dozen labels stay cheap even when the answer
+/// is "no")
 fn isomorphic(a: &BTreeSet<Tr>, b: &BTreeSet<Tr>) -> bool {
     if a.len() != b.len() {
         return false;
@@ -457,18 +459,35 @@ fn isomorphic(a: &BTreeSet<Tr>, b: &BTreeSet<Tr>) -> bool {
     if la.len() != lb.len() {
         return false;
     }
-    fn go(i: usize, la: &[String], lb: &[String], used: &mut Vec<bool>, m: &mut BTreeMap<String, String>, a: &BTreeSet<Tr>, b: &BTreeSet<Tr>) -> bool {
+    // stage[i] = triples of `a` whose highest label index is i; ground triples are checked first
+    let idx = |x: &T| match x {
+        T::Bnode(l) => la.iter().position(|y| y == l),
+        _ => None,
+    };
+    let mut stage: Vec<Vec<&Tr>> = vec![vec![]; la.len()];
+    for t in a {
+        match t.iter().filter_map(idx).max() {
+            None => {
+                if !b.contains(t) {
+                    return false;
+                }
+            }
+            Some(i) => stage[i].push(t),
+        }
+    }
+    fn go(i: usize, la: &[String], lb: &[String], used: &mut Vec<bool>, m: &mut BTreeMap<String, String>, stage: &[Vec<&Tr>], b: &BTreeSet<Tr>) -> bool {
         if i == la.len() {
-            return a.iter().all(|t| match (rename(&t[0], m), rename(&t[1], m), rename(&t[2], m)) {
-                (Some(s), Some(p), Some(o)) => b.contains(&[s, p, o]),
-                _ => false,
-            });
+            return true;
         }
         for j in 0..lb.len() {
             if !used[j] {
                 used[j] = true;
                 m.insert(la[i].clone(), lb[j].clone());
-                if go(i + 1, la, lb, used, m, a, b) {
+                let ok = stage[i].iter().all(|t| match (rename(&t[0], m), rename(&t[1], m), rename(&t[2], m)) {
+                    (Some(s), Some(p), Some(o)) => b.contains(&[s, p, o]),
+                    _ => false,
+                });
+                if ok && go(i + 1, la, lb, used, m, stage, b) {
                     return true;
                 }
                 m.remove(&la[i]);
@@ -477,7 +496,7 @@ fn isomorphic(a: &BTreeSet<Tr>, b: &BTreeSet<Tr>) -> bool {
         }
         false
     }
-    go(0, &la, &lb, &mut vec![false; lb.len()], &mut BTreeMap::new(), a, b)
+    go(0, &la, &lb, &mut vec![false; lb.len()], &mut BTreeMap::new(), &stage, b)
 }
 
 /// canonical one-token rendering of a parsed graph (sorted, deduplicated, tags as delivered)
@@ -616,27 +635,32 @@ fn exec_sink(f: &[&str]) -> String {
         }
     };
     let mut out = format!("res={} written={} refused={}", res, w.buf.len(), w.failed.min(1));
-    match &full {
-        Ok(doc) => {
-            let fits = limit >= doc.len();
-            if !fits && res == "ok" {
-                out += &format!(" FAIL.sink_error_swallowed={}of{}", limit, doc.len());
-            }
-            if fits && res != "ok" {
-                out += &format!(" FAIL.sink_spurious_error={}", res);
-            }
-            if !fits && res == "srcerr" {
-                out += " FAIL.sink_error_misreported=srcerr";
-            }
-            // whatever was accepted is the beginning of the document (and all of it on success)
-            let want = &doc.as_bytes()[..limit.min(doc.len())];
-            if w.buf != want {
-                out += &format!(" FAIL.sink_bytes={}", hex_bytes(&w.buf));
-            }
-        }
-        Err(_) => {
-            if res == "ok" {
-                out += " FAIL.sink_error_swallowed=formatter";
+    // The property: "either fails with an error or produces a well-formed document ...".  The
+    // writer said `Err` and the serialiser says `Ok`: the document it claims to have produced is
+    // not in the writer.
+    if w.failed > 0 && res == "ok" {
+        out += &format!(" FAIL.sink_error_swallowed={}of{}", limit, need);
+    }
+    // `Ok` without any refusal: what the writer holds is the document; when it is not byte for
+    // byte what the `Vec<u8>` run produced it is judged on its own (anything else about `res`,
+    // `written` is compared with the model only)
+    if w.failed == 0 && res == "ok" {
+        match &full {
+            Ok(doc) if doc.as_bytes() == &w.buf[..] => out += " bytes=same",
+            _ => {
+                out += " bytes=differ";
+                if in_scope(&g) {
+                    let expected: Vec<Tr> = g.iter().filter(|t| representable(t)).cloned().collect();
+                    match std::str::from_utf8(&w.buf) {
+                        Ok(d) => {
+                            for x in judge_doc(d, &expected).1 {
+                                out.push(' ');
+                                out += &x;
+                            }
+                        }
+                        Err(_) => out += " FAIL.not_wellformed=not-utf8",
+                    }
+                }
             }
         }
     }
@@ -661,23 +685,15 @@ fn exec_src(f: &[&str]) -> String {
         Err(StreamError::SourceError(_)) => "srcerr",
     };
     let mut out = format!("res={}", res);
-    let refused = g.iter().take(k).any(formatter_refuses);
-    let want = if refused { "sinkerr" } else if breaks { "srcerr" } else { "ok" };
-    if res != want {
-        let what = match (want, res) {
-            ("srcerr", "ok") => "source_error_swallowed",
-            ("srcerr", _) => "source_error_misreported",
-            ("sinkerr", _) => "formatter_error_lost",
-            _ => "source_spurious_error",
-        };
-        out += &format!(" FAIL.{}={}", what, res);
+    // the source said `Err` and the serialiser says `Ok`: the graph was not serialised (which
+    // error is reported, and a formatter refusal coming first, are compared with the model only)
+    if breaks && res == "ok" {
+        out += " FAIL.source_error_swallowed=ok";
     }
     if res == "ok" {
-        // nothing failed: the document is the ordinary one
+        // nothing failed: the document is the ordinary one (model field)
         let doc = ser.as_str().to_string();
-        if Ok(&doc) != serialize(indent, &g).as_ref() {
-            out += " FAIL.source_changes_output=1";
-        }
+        out += if Ok(&doc) == serialize(indent, &g).as_ref() { " same=1" } else { " same=0" };
     }
     out
 }
@@ -715,16 +731,52 @@ fn qnameable(p: &str) -> bool {
     idx.iter().any(|&i| i > 0 && is_ncname(&p[i..]))
 }
 
-fn exec_ser(f: &[&str]) -> String {
-    let Some(indent) = f.first().and_then(|s| s.parse::<usize>().ok()) else { return "bad-op".into() };
-    let Some(g) = parse_graph(&f[1..]) else { return "bad-op".into() };
+/// the property's demands on one output document: namespace-well-formed, parses, and the parse is
+/// isomorphic to the representable part of the input -> (reply fields, oracle failures)
+fn judge_doc(doc: &str, expected: &[Tr]) -> (String, Vec<String>) {
+    let mut out = String::new();
+    let mut fails: Vec<String> = vec![];
+    let wf = well_formed(doc);
+    out += &format!(" wf={}", if wf.is_ok() { "1".to_string() } else { wf.clone().unwrap_err() });
+    let parsed = catch(std::panic::AssertUnwindSafe(|| parse(doc)));
+    match &parsed {
+        Ok(Ok(pg)) => {
+            out += &format!(" parse=ok g={}", render_graph(pg));
+            let iso = isomorphic(&norm_graph(pg), &norm_graph(expected));
+            out += &format!(" rt={}", if iso { 1 } else { 0 });
+            if !iso {
+                fails.push("FAIL.roundtrip=not-isomorphic".into());
+            }
+        }
+        Ok(Err(_)) => {
+            out += " parse=err g=err rt=0";
+            fails.push("FAIL.roundtrip=parse-error".into());
+        }
+        Err(_) => {
+            out += " parse=panic g=panic rt=0";
+            fails.push("FAIL.roundtrip=parse-panic".into());
+        }
+    }
+    if let Err(e) = &wf {
+        fails.push(format!("FAIL.not_wellformed={}", e));
+    }
+    (out, fails)
+}
+
+fn in_scope(g: &[Tr]) -> bool {
     let mut strs = vec![];
-    for t in &g {
+    for t in g {
         for x in t {
             all_strings(x, &mut strs);
         }
     }
-    let in_scope = strs.iter().all(|s| s.chars().all(xml_char));
+    strs.iter().all(|s| s.chars().all(xml_char))
+}
+
+fn exec_ser(f: &[&str]) -> String {
+    let Some(indent) = f.first().and_then(|s| s.parse::<usize>().ok()) else { return "bad-op".into() };
+    let Some(g) = parse_graph(&f[1..]) else { return "bad-op".into() };
+    let in_scope = in_scope(&g);
     let expected: Vec<Tr> = g.iter().filter(|t| representable(t)).cloned().collect();
     let has_star = g.iter().any(formatter_refuses);
     let all_qname = expected.iter().all(|t| matches!(&t[1], T::Iri(p) if qnameable(p)));
@@ -743,30 +795,9 @@ fn exec_ser(f: &[&str]) -> String {
         }
         Ok(doc) => {
             out += &format!("out={}", hex(doc));
-            let wf = well_formed(doc);
-            out += &format!(" wf={}", if wf.is_ok() { "1".to_string() } else { wf.clone().unwrap_err() });
-            let parsed = catch(std::panic::AssertUnwindSafe(|| parse(doc)));
-            match &parsed {
-                Ok(Ok(pg)) => {
-                    out += &format!(" parse=ok g={}", render_graph(pg));
-                    let iso = isomorphic(&norm_graph(pg), &norm_graph(&expected));
-                    out += &format!(" rt={}", if iso { 1 } else { 0 });
-                    if !iso {
-                        fails.push("FAIL.roundtrip=not-isomorphic".into());
-                    }
-                }
-                Ok(Err(_)) => {
-                    out += " parse=err g=err rt=0";
-                    fails.push("FAIL.roundtrip=parse-error".into());
-                }
-                Err(_) => {
-                    out += " parse=panic g=panic rt=0";
-                    fails.push("FAIL.roundtrip=parse-panic".into());
-                }
-            }
-            if let Err(e) = &wf {
-                fails.push(format!("FAIL.not_wellformed={}", e));
-            }
+            let (fields, f) = judge_doc(doc, &expected);
+            out += &fields;
+            fails.extend(f);
         }
     }
     // indentation must not change the parsed result
@@ -788,11 +819,26 @@ fn exec_ser(f: &[&str]) -> String {
         Some(Err(_)) => " dflt=err".to_string(),
     };
     docs.extend(dflt);
+    // distinct results UP TO ISOMORPHISM (a parser that relabels blank nodes per document must not
+    // be reported): string equality first, then the exact isomorphism test against the
+    // representatives seen so far
+    let mut graphs: Vec<BTreeSet<Tr>> = vec![];
     for d in docs {
         let r = match d {
             Err(_) => "err".to_string(),
             Ok(doc) => match catch(std::panic::AssertUnwindSafe(|| parse(&doc))) {
-                Ok(Ok(pg)) => render_graph(&pg),
+                Ok(Ok(pg)) => {
+                    let r = render_graph(&pg);
+                    if results.contains(&r) {
+                        continue;
+                    }
+                    let ng = norm_graph(&pg);
+                    if graphs.iter().any(|h| isomorphic(h, &ng)) {
+                        continue;
+                    }
+                    graphs.push(ng);
+                    r
+                }
                 Ok(Err(_)) => "parse-err".to_string(),
                 Err(_) => "parse-panic".to_string(),
             },
@@ -1258,7 +1304,7 @@ fn emit_src(ctx: &mut GenCtx, indent: usize, g: &[Tr]) {
 pub fn generate(ctx: &mut GenCtx) {
     let preds = predicates();
     let dts = datatypes();
-    let plain: Vec<(String, &'static str)> = preds.iter().filter(|(_, s)| matches!(*s, "slash" | "hash" | "colon" | "non-ascii" | "digit-initial" | "percent" | "markup-in-ns")).cloned().collect();
+    let plain: Vec<(String, &'static str)> = preds.iter().filter(|(_, s)| matches!(*s, "slash" | "hash" | "colon" | "non-ascii" | "digit-initial" | "percent" | "markup-in-ns" | "rdf-near" | "odd-iri")).cloned().collect();
     // every predicate shape: its split, and one document per object kind
     for (p, shape) in &preds {
         ctx.emit(&format!("split {}", hex(p)));
@@ -1353,7 +1399,8 @@ pub fn generate(ctx: &mut GenCtx) {
     }
     let n = if ctx.thorough { 30000 } else { 2500 };
     for _ in 0..n {
-        let k = if ctx.rng.chance(1, 60) {
+        let big = ctx.rng.chance(1, 60);
+        let k = if big {
             ctx.stats.bump("graph.big");
             ctx.rng.range(20, 60)
         } else {
@@ -1362,7 +1409,16 @@ pub fn generate(ctx: &mut GenCtx) {
         let mut g: Vec<Tr> = vec![];
         let mut all_rep = true;
         for i in 0..k {
-            let mut t = if ctx.rng.chance(1, 8) {
+            let mut t = if big {
+                // mostly strict; skipped triples allowed, refused ones (serialiser error) not
+                let t = if ctx.rng.chance(1, 10) { gen_nonrepresentable(ctx, &plain, &dts) } else { gen_strict(ctx, &plain, &dts) };
+                if formatter_refuses(&t) {
+                    gen_strict(ctx, &plain, &dts)
+                } else {
+                    all_rep = all_rep && representable(&t);
+                    t
+                }
+            } else if ctx.rng.chance(1, 8) {
                 all_rep = false;
                 gen_nonrepresentable(ctx, &plain, &dts)
             } else if ctx.rng.chance(1, 12) {
@@ -1377,6 +1433,17 @@ pub fn generate(ctx: &mut GenCtx) {
                     t[0] = T::Iri("http://ex.org/a".into());
                 } else {
                     ctx.stats.bump("graph.same_subject_run");
+                }
+            }
+            if big {
+                // a big graph must really round-trip: none of the known-finding shapes
+                // (digit-initial blank label, whitespace-only text)
+                for x in t.iter_mut() {
+                    match x {
+                        T::Bnode(l) if !is_ncname(l) => *l = "b7".into(),
+                        T::Lit(v, _) | T::Lang(v, _) if !v.is_empty() && v.chars().all(|c| matches!(c, ' ' | '\t' | '\n' | '\r')) => v.push('w'),
+                        _ => {}
+                    }
                 }
             }
             g.push(t);
